@@ -22,6 +22,7 @@
 
 #include "scheduler.h"
 #include <queue>
+#include <deque>
 
 namespace tbox {
 namespace coroutine {
@@ -33,13 +34,18 @@ class Channel {
     Channel (Scheduler &sch) : sch_(sch) { }
 
     bool operator >> (T &out) {
-        if (queue_.empty()) {   //! 如果队列里没有，则等待
-            token_.push(sch_.getToken());
-            do {
-                sch_.wait();
-                if (sch_.isCanceled())
-                    return false;
-            } while (queue_.empty());
+        //! 每次进入等待前都重新登记，醒来后注销，避免留下失效的 token
+        while (queue_.empty()) {
+            RoutineToken self = sch_.getToken();
+            token_.push_back(self);
+            sch_.wait();
+            removeToken(self);
+            if (sch_.isCanceled()) {
+                //! 自己被取消了，如果有数据，要把唤醒机会让给其它等待者
+                if (!queue_.empty())
+                    wakeOne();
+                return false;
+            }
         }
 
         out = queue_.front();
@@ -48,12 +54,8 @@ class Channel {
     }
 
     Channel& operator << (const T &value) {
-        if (queue_.empty() && !token_.empty()) {
-            auto t = token_.front();
-            token_.pop();
-            sch_.resume(t);
-        }
         queue_.push(value);
+        wakeOne();  //! 每送入一个数据，都唤醒一个等待者
         return *this;
     }
 
@@ -63,8 +65,27 @@ class Channel {
   private:
     Scheduler &sch_;
 
+    //! 唤醒最早的一个还能被唤醒的等待者
+    void wakeOne() {
+        while (!token_.empty()) {
+            RoutineToken t = token_.front();
+            token_.pop_front();
+            if (sch_.resume(t))
+                break;
+        }
+    }
+
+    void removeToken(const RoutineToken &t) {
+        for (auto it = token_.begin(); it != token_.end(); ++it) {
+            if (it->equal(t)) {
+                token_.erase(it);
+                break;
+            }
+        }
+    }
+
     std::queue<T> queue_;
-    std::queue<RoutineToken> token_;
+    std::deque<RoutineToken> token_;
 };
 
 }
